@@ -88,6 +88,21 @@ theorem toolDef_serverPage {ts : Tools} (hnd : (toolNames ts).Nodup) {size : Nat
     (h : toolDef (serverPage ts size cursor).1 n = some p) : toolDef ts n = some p :=
   toolDef_of_mem_nodup hnd (mem_serverPage (toolDef_mem h))
 
+/-- A page as the client keeps it defines its tools as the server's table does (dropping tools does not change the others). -/
+theorem toolDef_clientPage {w : World} (hnd : (toolNames w.server).Nodup) {k n : Bytes} {p : Props}
+    (h : toolDef (clientPage w k).1 n = some p) : toolDef w.server n = some p :=
+  toolDef_of_mem_nodup hnd (mem_serverPage (List.mem_filter.mp (toolDef_mem h)).1)
+
+/-- … and does not define a tool the server lists with invalid annotations. -/
+theorem toolDef_clientPage_bad (w : World) (k : Bytes) {n : Bytes} (hb : w.bad.contains n = true) :
+    toolDef (clientPage w k).1 n = none := by
+  cases hd : toolDef (clientPage w k).1 n with
+  | none => rfl
+  | some p =>
+    have := (List.mem_filter.mp (toolDef_mem hd)).2
+    simp only [hb, Bool.not_true] at this
+    cases this
+
 theorem nodup_removeTool {ts : Tools} (n : Bytes) (h : (toolNames ts).Nodup) : (toolNames (removeTool n ts)).Nodup := by
   unfold toolNames removeTool
   exact List.Nodup.sublist (List.Sublist.map _ List.filter_sublist) h
@@ -267,19 +282,21 @@ structure SeqInv (w : World) (m : SeqMon) : Prop where
   proto : m.newProto = w.newProto
   server : m.server = w.server
   psize : m.pageSize = w.pageSize
+  serverB : m.serverB = w.serverB
+  bad : m.bad = w.bad
   nodup : (toolNames w.server).Nodup
-  curPage : ∀ pg ∈ w.cache, pg.cur = true → pg.tools = (serverPage w.server w.pageSize pg.key).1
+  curPage : ∀ pg ∈ w.cache, pg.cur = true → pg.tools = (clientPage w pg.key).1
   listed : ∀ n ∈ m.listed, FirstCur n w.cache
   /-- after a list_changed that followed the last change, the cache holds only pages requested after it -/
   fresh : m.fresh = true → ∀ pg ∈ w.cache, pg.cur = true
   /-- the observer's knowledge of the listing in flight is the ghost state of the model's -/
   pendEq : m.pend = w.pend.map (fun p => (!p.cur, p.gen != w.gen))
   pendLe : ∀ p, w.pend = some p → p.gen ≤ w.gen
-  pendCur : ∀ p, w.pend = some p → p.cur = true → p.tools = (serverPage w.server w.pageSize p.key).1
+  pendCur : ∀ p, w.pend = some p → p.cur = true → p.tools = (clientPage w p.key).1
   pendFresh : m.fresh = true → ∀ p, w.pend = some p → p.gen = w.gen → p.cur = true
 
 theorem seqInv_init (cfg : SeqCfg) : SeqInv (World.init cfg) (SeqMon.init cfg) :=
-  { proto := rfl, server := rfl, psize := rfl, nodup := List.nodup_nil, curPage := fun _ h => (by cases h),
+  { proto := rfl, server := rfl, psize := rfl, serverB := rfl, bad := rfl, nodup := List.nodup_nil, curPage := fun _ h => (by cases h),
     listed := fun _ h => (by cases h), fresh := fun _ _ h => (by cases h), pendEq := rfl,
     pendLe := fun _ h => (by cases h), pendCur := fun _ h => (by cases h), pendFresh := fun _ _ h => (by cases h) }
 
@@ -289,17 +306,17 @@ theorem SeqInv.lookup {w : World} {m : SeqMon} (h : SeqInv w m) {n : Bytes} (hn 
   obtain ⟨q, hq, hqc, d, hd, hf⟩ := firstCur_lookup (h.listed n hn)
   refine ⟨d, hf, ?_⟩
   rw [h.curPage q hq hqc] at hd
-  exact toolDef_serverPage h.nodup hd
+  exact toolDef_clientPage h.nodup hd
 
 theorem seqMonStep_list_fetched (c : B64) (m : SeqMon) (k : Bytes) (tools : Tools) (next : Bytes) (hm : m.newProto = true) :
-    seqMonStep c m (.list k) (.listed false tools next) =
-      ({ m with listed := toolNames tools ++ m.listed, seen := tools ++ m.seen }, none) := by
+    (seqMonStep c m (.list k) (.listed false tools next)).1 =
+      { m with listed := toolNames tools ++ m.listed, seen := tools ++ m.seen } := by
   simp [seqMonStep, hm]
 
 /-- A page that is the server's current answer for cursor `k` becomes the most recent one, replacing the page of that
 cursor: every name the observer counts as listed, and every name of the new page, is still found in a current page first. -/
 theorem firstCur_put {w : World} {m : SeqMon} (h : SeqInv w m) (k : Bytes) (x : Page) (hxk : x.key = k) (hxc : x.cur = true)
-    (hxt : x.tools = (serverPage w.server w.pageSize k).1) (n : Bytes)
+    (hxt : x.tools = (clientPage w k).1) (n : Bytes)
     (hn : n ∈ toolNames x.tools ∨ n ∈ m.listed) : FirstCur n (x :: w.cache.filter (fun pg => pg.key != k)) := by
   simp only [FirstCur]
   split
@@ -321,10 +338,10 @@ theorem firstCur_put {w : World} {m : SeqMon} (h : SeqInv w m) (k : Bytes) (x : 
 theorem seqInv_put {c : B64} {w : World} {m : SeqMon} (h : SeqInv w m) (hp : w.newProto = true) (now : Nat) (k : Bytes) :
     SeqInv (putPage w now k).1 (seqMonStep c m (.list k) (putPage w now k).2).1 := by
   have hmp : m.newProto = true := by rw [h.proto, hp]
-  rw [show (putPage w now k).2 = .listed false (serverPage w.server w.pageSize k).1 (serverPage w.server w.pageSize k).2 from rfl,
+  rw [show (putPage w now k).2 = .listed false (clientPage w k).1 (clientPage w k).2 from rfl,
     seqMonStep_list_fetched c m k _ _ hmp]
   simp only [putPage]
-  refine { proto := h.proto, server := h.server, psize := h.psize, nodup := h.nodup, curPage := ?_, listed := ?_, fresh := ?_,
+  refine { proto := h.proto, server := h.server, psize := h.psize, serverB := h.serverB, bad := h.bad, nodup := h.nodup, curPage := ?_, listed := ?_, fresh := ?_,
            pendEq := h.pendEq, pendLe := h.pendLe, pendCur := h.pendCur, pendFresh := h.pendFresh }
   · intro pg hpg hcur
     rcases List.mem_cons.mp hpg with he | hr
@@ -346,7 +363,7 @@ theorem stalePend_map (po : Option Pending) (g : Nat) :
 theorem seqInv_change {w : World} {m : SeqMon} (h : SeqInv w m) (ts : Tools) (hnd : (toolNames ts).Nodup) :
     SeqInv { w with server := ts, cache := staleAll w.cache, pend := stalePend w.pend }
       { m with server := ts, listed := [], fresh := false, pend := m.pend.map (fun x => (true, x.2)) } :=
-  { proto := h.proto, server := rfl, psize := h.psize, nodup := hnd,
+  { proto := h.proto, server := rfl, psize := h.psize, serverB := h.serverB, bad := h.bad, nodup := hnd,
     curPage := fun pg hpg hcur => (by rw [mem_staleAll hpg] at hcur; cases hcur),
     listed := fun _ hn => (by cases hn), fresh := fun hf => (by cases hf),
     pendEq := (by simp only [h.pendEq]; exact (stalePend_map w.pend w.gen).symm),
@@ -368,6 +385,41 @@ theorem seqInv_change {w : World} {m : SeqMon} (h : SeqInv w m) (ts : Tools) (hn
         cases hc),
     pendFresh := fun hf => (by cases hf) }
 
+theorem seqInv_changeBad {w : World} {m : SeqMon} (h : SeqInv w m) (b : List Bytes) :
+    SeqInv { w with bad := b, cache := staleAll w.cache, pend := stalePend w.pend }
+      { m with bad := b, listed := [], fresh := false, pend := m.pend.map (fun x => (true, x.2)) } :=
+  { proto := h.proto, server := h.server, psize := h.psize, serverB := h.serverB, bad := rfl, nodup := h.nodup,
+    curPage := fun pg hpg hcur => (by rw [mem_staleAll hpg] at hcur; cases hcur),
+    listed := fun _ hn => (by cases hn), fresh := fun hf => (by cases hf),
+    pendEq := (by simp only [h.pendEq]; exact (stalePend_map w.pend w.gen).symm),
+    pendLe := (by
+      intro p hp
+      cases hw : w.pend with
+      | none => simp [stalePend, hw] at hp
+      | some q =>
+        simp only [stalePend, hw, Option.map_some, Option.some.injEq] at hp
+        subst hp
+        exact h.pendLe q hw),
+    pendCur := (by
+      intro p hp hc
+      cases hw : w.pend with
+      | none => simp [stalePend, hw] at hp
+      | some q =>
+        simp only [stalePend, hw, Option.map_some, Option.some.injEq] at hp
+        subst hp
+        cases hc),
+    pendFresh := fun hf => (by cases hf) }
+
+/-- After a list_changed that followed the last change, the client knows no definition of a tool the server lists with
+invalid annotations. -/
+theorem lookup_bad_none {w : World} {m : SeqMon} (h : SeqInv w m) (hf : m.fresh = true) {n : Bytes}
+    (hb : w.bad.contains n = true) : clientLookup w n = none := by
+  unfold clientLookup
+  rw [List.findSome?_eq_none_iff]
+  intro pg hpg
+  rw [h.curPage pg hpg (h.fresh hf pg hpg)]
+  exact toolDef_clientPage_bad w pg.key hb
+
 /-- A page the model serves from the cache raises no `seqStaleList`: after a list_changed that followed the last change the
 cache holds only pages requested since, and those are the server's. -/
 theorem staleHit_cached {w : World} {m : SeqMon} (h : SeqInv w m) {k : Bytes} {pg : Page}
@@ -381,7 +433,9 @@ theorem staleHit_cached {w : World} {m : SeqMon} (h : SeqInv w m) {k : Bytes} {p
     apply hne
     have hmem := List.mem_of_find?_eq_some hf
     have hk : pg.key = k := by simpa using List.find?_some hf
-    rw [h.server, h.psize, ← hk]
+    rw [← hk]
+    unfold monPage
+    rw [h.server, h.psize, h.bad]
     exact h.curPage pg hmem (h.fresh hfr pg hmem)
   · rfl
 
@@ -415,7 +469,7 @@ theorem seqInv_step (c : B64) {w : World} {m : SeqMon} (h : SeqInv w m) (now : N
   | ttl v => exact { h with }
   | adv => exact h
   | notified =>
-    refine { proto := h.proto, server := h.server, psize := h.psize, nodup := h.nodup, curPage := fun _ hpg => (by cases hpg),
+    refine { proto := h.proto, server := h.server, psize := h.psize, serverB := h.serverB, bad := h.bad, nodup := h.nodup, curPage := fun _ hpg => (by cases hpg),
              listed := fun _ hn => (by cases hn), fresh := fun _ _ hpg => (by cases hpg), pendEq := ?_, pendLe := ?_,
              pendCur := h.pendCur, pendFresh := ?_ }
     · simp only [stepW, seqMonStep, h.pendEq]
@@ -454,7 +508,7 @@ theorem seqInv_step (c : B64) {w : World} {m : SeqMon} (h : SeqInv w m) (now : N
       intro hw
       have hmpend : m.pend = none := by rw [h.pendEq, hw]; rfl
       simp only [sendList, seqMonStep, hmpend]
-      exact { proto := h.proto, server := h.server, psize := h.psize, nodup := h.nodup, curPage := h.curPage,
+      exact { proto := h.proto, server := h.server, psize := h.psize, serverB := h.serverB, bad := h.bad, nodup := h.nodup, curPage := h.curPage,
               listed := h.listed, fresh := h.fresh, pendEq := (by simp),
               pendLe := (by intro p hp; simp only [Option.some.injEq] at hp; subst hp; exact Nat.le_refl _),
               pendCur := (by intro p hp _; simp only [Option.some.injEq] at hp; subst hp; rfl),
@@ -479,12 +533,12 @@ theorem seqInv_step (c : B64) {w : World} {m : SeqMon} (h : SeqInv w m) (now : N
     | none => exact h
     | some p =>
       have hmpend : m.pend = some (!p.cur, p.gen != w.gen) := by rw [h.pendEq, hw]; rfl
-      simp only [recvList, seqMonStep, hmpend]
+      simp only [recvList, seqMonStep, recvMon, hmpend]
       cases hp : w.newProto with
       | false =>
         have hmp : m.newProto = false := by rw [h.proto, hp]
         simp only [hmp, Bool.not_false, if_true, Bool.false_and, Bool.false_eq_true, if_false]
-        exact { proto := (by simp [hmp]), server := h.server, psize := h.psize, nodup := h.nodup, curPage := h.curPage,
+        exact { proto := (by simp [hmp]), server := h.server, psize := h.psize, serverB := h.serverB, bad := h.bad, nodup := h.nodup, curPage := h.curPage,
                 listed := h.listed, fresh := h.fresh, pendEq := rfl, pendLe := fun _ hq => (by cases hq),
                 pendCur := fun _ hq => (by cases hq), pendFresh := fun _ _ hq => (by cases hq) }
       | true =>
@@ -497,7 +551,7 @@ theorem seqInv_step (c : B64) {w : World} {m : SeqMon} (h : SeqInv w m) (now : N
           cases hc : p.cur with
           | false =>
             simp only [Bool.not_false, if_true]
-            refine { proto := (by simp [hmp]), server := h.server, psize := h.psize, nodup := h.nodup, curPage := ?_,
+            refine { proto := (by simp [hmp]), server := h.server, psize := h.psize, serverB := h.serverB, bad := h.bad, nodup := h.nodup, curPage := ?_,
                      listed := fun _ hn => (by cases hn), fresh := ?_, pendEq := rfl, pendLe := fun _ hq => (by cases hq),
                      pendCur := fun _ hq => (by cases hq), pendFresh := fun _ _ hq => (by cases hq) }
             · intro pg hpg hcur
@@ -512,7 +566,7 @@ theorem seqInv_step (c : B64) {w : World} {m : SeqMon} (h : SeqInv w m) (now : N
           | true =>
             have hpt := h.pendCur p hw hc
             simp only [Bool.not_true, Bool.false_eq_true, if_false]
-            refine { proto := (by simp [hmp]), server := h.server, psize := h.psize, nodup := h.nodup, curPage := ?_,
+            refine { proto := (by simp [hmp]), server := h.server, psize := h.psize, serverB := h.serverB, bad := h.bad, nodup := h.nodup, curPage := ?_,
                      listed := ?_, fresh := ?_, pendEq := rfl, pendLe := fun _ hq => (by cases hq),
                      pendCur := fun _ hq => (by cases hq), pendFresh := fun _ _ hq => (by cases hq) }
             · intro pg hpg hcur
@@ -530,11 +584,20 @@ theorem seqInv_step (c : B64) {w : World} {m : SeqMon} (h : SeqInv w m) (now : N
         · have h1 : (p.gen != w.gen) = true := by simp [hg]
           have h2 : (p.gen == w.gen) = false := by simp [hg]
           simp only [h1, h2, Bool.false_eq_true, if_false, if_true]
-          exact { proto := (by simp [hmp]), server := h.server, psize := h.psize, nodup := h.nodup, curPage := h.curPage,
+          exact { proto := (by simp [hmp]), server := h.server, psize := h.psize, serverB := h.serverB, bad := h.bad, nodup := h.nodup, curPage := h.curPage,
                   listed := h.listed, fresh := h.fresh, pendEq := rfl, pendLe := fun _ hq => (by cases hq),
                   pendCur := fun _ hq => (by cases hq), pendFresh := fun _ _ hq => (by cases hq) }
   | look n => exact h
   | call n a => exact h
+  | setBad n =>
+    have := seqInv_changeBad h (n :: w.bad)
+    simpa only [stepW, seqMonStep, h.bad] using this
+  | clearBad n =>
+    have := seqInv_changeBad h (w.bad.filter (· != n))
+    simpa only [stepW, seqMonStep, h.bad] using this
+  | setToolB n p => exact { h with serverB := (by simp [stepW, seqMonStep, h.serverB]) }
+  | delToolB n => exact { h with serverB := (by simp [stepW, seqMonStep, h.serverB]) }
+  | callB n a => exact h
 
 /-! ## runs -/
 
@@ -593,6 +656,56 @@ theorem legacy_call_accepted (c : B64) (w : World) (hp : w.newProto = false) {n 
   unfold callModel callWith
   simp [hp, hs]
 
+/-- **Two servers behind one handler.**  A call that `getServer` routes to the handler's second server, by a client that
+has just listed THAT server's tools, carries exactly the headers that server's definition demands and goes through — for
+every world: whatever the first server has registered under the same name (other annotations, none), whatever was listed,
+cached or called before.  (Seeded change C12-m16, second form: bindings cached per tool NAME on the handler.) -/
+theorem other_server_call_agrees (c : B64) (hc : c.Lawful) (w : World) (hp : w.newProto = true) {n : Bytes} {ps : Props}
+    (hs : toolDef w.serverB n = some ps) (a : Args) (hv : validateAnnotations ps = true) (ha : ArgsPrim ps a) :
+    callModelB c w n a = (generateParamHeaders c ps a, .okSame) := by
+  unfold callModelB
+  rw [hs]
+  exact callWith_own_def c hc { w with server := w.serverB } hp hs a hv ha
+
+/-- … along every run: the answer depends on the second server's table alone. -/
+theorem two_servers_agree_over_time (c : B64) (hc : c.Lawful) (cfg : SeqCfg) (ops : List (Nat × SeqOp))
+    (n : Bytes) (ps : Props) (a : Args)
+    (hp : (runSeq c (World.init cfg) (SeqMon.init cfg) ops).1.newProto = true)
+    (hs : toolDef (runSeq c (World.init cfg) (SeqMon.init cfg) ops).1.serverB n = some ps)
+    (hv : validateAnnotations ps = true) (ha : ArgsPrim ps a) :
+    callModelB c (runSeq c (World.init cfg) (SeqMon.init cfg) ops).1 n a = (generateParamHeaders c ps a, .okSame) :=
+  other_server_call_agrees c hc _ hp hs a hv ha
+
+/-- **filterValidTools.**  No tools/list result the client caches or hands on names a tool the server lists with invalid
+annotations (any world). -/
+theorem clientPage_filtered (w : World) (k : Bytes) : ∀ t ∈ (clientPage w k).1, w.bad.contains t.1 = false := by
+  intro t ht
+  have := (List.mem_filter.mp ht).2
+  simpa using this
+
+/-- **A foreign server's invalid annotations.**  For EVERY list of operations and all clocks: once the client has handled a
+list_changed after the last change of what the server lists, a call of a tool the server lists with invalid annotations
+carries NO `Mcp-Param-*` header (the client has no usable definition; it does not fall back on anything it knew), and the
+call is still made: the outcome is the server's verdict on a request without mirror. -/
+theorem bad_tool_no_mirror_over_time (c : B64) (cfg : SeqCfg) (ops : List (Nat × SeqOp)) (n : Bytes) (a : Args)
+    (hf : (runSeq c (World.init cfg) (SeqMon.init cfg) ops).2.1.fresh = true)
+    (hb : (runSeq c (World.init cfg) (SeqMon.init cfg) ops).1.bad.contains n = true) :
+    callModel c (runSeq c (World.init cfg) (SeqMon.init cfg) ops).1 n a =
+      callWith c (runSeq c (World.init cfg) (SeqMon.init cfg) ops).1 none n a ∧
+    (callModel c (runSeq c (World.init cfg) (SeqMon.init cfg) ops).1 n a).1 = [] := by
+  have hinv := runSeq_inv c ops (seqInv_init cfg)
+  have hl := lookup_bad_none hinv hf hb
+  have hcm : callModel c (runSeq c (World.init cfg) (SeqMon.init cfg) ops).1 n a =
+      callWith c (runSeq c (World.init cfg) (SeqMon.init cfg) ops).1 none n a := by
+    unfold callModel; rw [hl]
+  refine ⟨hcm, ?_⟩
+  rw [hcm]
+  generalize (runSeq c (World.init cfg) (SeqMon.init cfg) ops).1 = w
+  unfold callWith
+  cases w.newProto <;> cases hs : toolDef w.server n <;> simp
+  rename_i ps
+  cases validateParamHeaders c ps a [] <;> rfl
+
 /-- **list_changed beats the cache, in-flight responses included.**  For EVERY list of operations with arbitrary clocks —
 listings in flight (`listSend` … `listRecv`) overtaken by changes of the server's tools, by notifications and by other
 listings, any `ttlMs` —: once the client has handled a list_changed after the server's table last changed (`fresh`), every
@@ -601,8 +714,7 @@ cache generation is not stored; seeded change C12-m13 breaks exactly this.) -/
 theorem cache_current_after_list_changed (c : B64) (cfg : SeqCfg) (ops : List (Nat × SeqOp))
     (hf : (runSeq c (World.init cfg) (SeqMon.init cfg) ops).2.1.fresh = true) :
     ∀ pg ∈ (runSeq c (World.init cfg) (SeqMon.init cfg) ops).1.cache,
-      pg.tools = (serverPage (runSeq c (World.init cfg) (SeqMon.init cfg) ops).1.server
-        (runSeq c (World.init cfg) (SeqMon.init cfg) ops).1.pageSize pg.key).1 := by
+      pg.tools = (clientPage (runSeq c (World.init cfg) (SeqMon.init cfg) ops).1 pg.key).1 := by
   have hinv := runSeq_inv c ops (seqInv_init cfg)
   intro pg hpg
   exact hinv.curPage pg hpg (hinv.fresh hf pg hpg)
@@ -612,8 +724,7 @@ server's current page. -/
 theorem list_current_after_list_changed (c : B64) (cfg : SeqCfg) (ops : List (Nat × SeqOp)) (now : Nat) (k : Bytes)
     (hf : (runSeq c (World.init cfg) (SeqMon.init cfg) ops).2.1.fresh = true) :
     ∃ hit next, (stepW c (runSeq c (World.init cfg) (SeqMon.init cfg) ops).1 now (.list k)).2 =
-      .listed hit (serverPage (runSeq c (World.init cfg) (SeqMon.init cfg) ops).1.server
-        (runSeq c (World.init cfg) (SeqMon.init cfg) ops).1.pageSize k).1 next := by
+      .listed hit (clientPage (runSeq c (World.init cfg) (SeqMon.init cfg) ops).1 k).1 next := by
   have hcur := cache_current_after_list_changed c cfg ops hf
   generalize (runSeq c (World.init cfg) (SeqMon.init cfg) ops).1 = w at hcur ⊢
   simp only [stepW]
@@ -691,6 +802,27 @@ theorem overtaken_without_notification_forgets : wA ∉ (finalM wCfg opsOvertake
     wA ∈ (finalM wCfg (opsOvertakenQuiet.take 5)).listed ∧
     clientLookup (finalW wCfg opsOvertakenQuiet) wA = some wPlain ∧
     callModel idCodec (finalW wCfg opsOvertakenQuiet) wA wArgs = ([], .notOk (some (-32020)) true) := by decide
+
+/-- The two-server sequence of C12-m16: tool `a` of the first server mirrors `region`, it is listed and called; the second
+server's `a` has no annotation: the call routed to it carries no header and goes through (and vice versa). -/
+def opsTwoServers : List (Nat × SeqOp) :=
+  [(0, .setTool wA wProps), (0, .setToolB wA wPlain), (0, .list []), (0, .call wA wArgs)]
+theorem two_servers_same_name : callModel idCodec (finalW wCfg opsTwoServers) wA wArgs = (wHdrs, .okSame) ∧
+    callModelB idCodec (finalW wCfg opsTwoServers) wA wArgs = ([], .okSame) ∧
+    callModelB idCodec { finalW wCfg opsTwoServers with serverB := [(wA, wProps)], server := [(wA, wPlain)] } wA wArgs =
+      (wHdrs, .okSame) := by decide
+
+/-- A foreign server starts listing `a` with invalid annotations: after the list_changed and a re-listing the client does
+not know `a` any more, sends no header; a server whose registered definition demands one refuses (the server is
+inconsistent with itself), one whose definition demands none accepts. -/
+def opsBad (p : Props) : List (Nat × SeqOp) :=
+  [(0, .setTool wA p), (0, .list []), (1, .setBad wA), (12, .notified), (13, .list [])]
+theorem bad_tool_dropped : (finalW wCfg (opsBad wProps)).cache.map (·.tools) = [[]] ∧
+    clientLookup (finalW wCfg (opsBad wProps)) wA = none ∧
+    callModel idCodec (finalW wCfg (opsBad wProps)) wA wArgs = ([], .notOk (some (-32020)) true) ∧
+    callModel idCodec (finalW wCfg (opsBad wPlain)) wA wArgs = ([], .okSame) ∧
+    callModel idCodec (finalW wCfg (opsBad wProps ++ [(14, .clearBad wA), (15, .list [])])) wA wArgs = (wHdrs, .okSame) := by
+  decide
 
 /-- Never listed: the client sends no header, the server (which knows its tool) demands one. -/
 def opsNever : List (Nat × SeqOp) := [(0, .setTool wA wProps)]
